@@ -491,3 +491,52 @@ Theorem C06_generated_history_independent : forall g calls,
   history_g (gen_generator segment_key_stringified) [] g calls = map (generate g) calls.
 Proof. exact generated_history_independent. Qed.
 Print Assumptions C06_generated_history_independent.
+
+(* ---------------------------------------------------------------- separability implies "no other way" (Proofs/C06_uniq.v) *)
+Require Import Verif.Proofs.C06_uniq.
+
+(* under separability and admissible captures the declarative enumeration of the rendered path is exactly [caps] *)
+Theorem C06_sep_val_all_decs : forall O st its caps,
+  sep_val O st its caps = true -> C01.caps_ok O st its caps = true ->
+  C01.all_decs O st its (C01.render its caps) = [caps].
+Proof. exact sep_val_all_decs. Qed.
+Print Assumptions C06_sep_val_all_decs.
+
+(* ... so [only_way], the hypothesis of the open specification and of C06_route_roundtrip_only_way, is the weaker
+   one (Example only_way_weaker: two adjacent placeholders [a-z]+ and \d+, never separable, path /a1 has one way only) *)
+Theorem C06_sep_val_only_way : forall O p caps,
+  sep_val O (C01.star p) (C01.items p) caps = true ->
+  C01.caps_ok O (C01.star p) (C01.items p) caps = true ->
+  only_way (hole_langs O (C01.items p)) (C01.star p) (C01.items p) caps = true.
+Proof. exact sep_val_only_way. Qed.
+Print Assumptions C06_sep_val_only_way.
+
+(* ---------------------------------------------------------------- the host_url form (Proofs/C06_host.v) *)
+Require Import Verif.Proofs.C06_host.
+
+(* webob's host_url is scheme://netloc with a clean netloc whenever HTTP_HOST / SERVER_NAME / SERVER_PORT are clean *)
+Theorem C06_webob_host_url_form : forall e,
+  match e_http_host e with Some h => forallb netloc_char h | None => true end = true ->
+  forallb netloc_char (e_server_name e) = true -> forallb netloc_char (e_server_port e) = true ->
+  exists netloc, webob_host_url e = e_scheme e ++ [58; 47; 47] ++ netloc /\ forallb netloc_char netloc = true.
+Proof. exact webob_host_url_form. Qed.
+Print Assumptions C06_webob_host_url_form.
+
+(* route_url end to end with the host form proved instead of assumed (no _scheme/_host/_port/_app_url overrides) *)
+Theorem C06_route_url_way_back_env : forall O dflt src p e rs n o kw U caps,
+  C01.parse_core O dflt src = C01.Ok p ->
+  Verif.Proofs.C17.wf_query (o_query o) -> Verif.Proofs.C17.wf_anchor (o_anchor o) ->
+  o_app_url o = None -> o_scheme o = None -> o_host o = None -> o_port o = None ->
+  scheme_ok (e_scheme e) = true ->
+  match e_http_host e with Some h => forallb netloc_char h | None => true end = true ->
+  forallb netloc_char (e_server_name e) = true -> forallb netloc_char (e_server_port e) = true ->
+  (e_script e = [] \/ exists s, e_script e = 47 :: s) ->
+  assoc n rs = Some (to_pattern p) -> route_url [] e rs n [] o kw = Ok U ->
+  kw_caps p kw = Some caps ->
+  C01.caps_ok O (C01.star p) (C01.items p) caps = true ->
+  sep_val O (C01.star p) (C01.items p) caps = true ->
+  exists s pi, url_split U = Ok s /\ u_scheme s = map lower (e_scheme e)
+    /\ wsgi_path_info (e_script e) (u_path s) = Some pi
+    /\ match_back O p pi = Some (C01.mk_dict (C01.items p) (C01.star p) caps).
+Proof. exact route_url_way_back_env. Qed.
+Print Assumptions C06_route_url_way_back_env.
